@@ -74,6 +74,20 @@ def directed_cases():
     case("delto-after-reopen", small_adds(4) + [["reopen", "abandon"]], ["delto", 1], all_t=False)
     case("delto-after-delto", small_adds(6) + [["delto", 2]], ["delto", 1], all_t=False)
     case("delto-pending-ci", small_adds(3) + [["setci", 5], ["timer"], ["setci", 6]], ["delto", 1], [["timer"]], all_t=False)
+    # head drop then tail drop (and the other order) in ONE session, records of pairwise different sizes: every
+    # crash point of the second op, the completed one included, must reopen to the right prefix (seeded C08-13)
+    mixed = [["add", i + 1, 1, {"n": n, "s": i}] for i, n in enumerate((3, 50, 7, 120, 1, 33, 64, 9, 200, 17, 0, 81))]
+    case("headdrop-then-taildrop", mixed[:9] + [["delto", 2]], ["delfrom", 5], [["add", 20, 2, {"n": 13, "s": 20}], ["reopen", "destroy"]],
+         all_t=False)
+    case("headdrop-then-taildrop-1", mixed[:6] + [["delto", 4]], ["delfrom", 1], [["add", 20, 2, {"n": 13, "s": 20}], ["reopen", "abandon"]],
+         all_t=False)
+    case("headdrop-add-taildrop", mixed[:7] + [["delto", 3], ["add", 20, 2, {"n": 77, "s": 20}]], ["delfrom", 2], [["reopen", "destroy"]],
+         all_t=False)
+    case("headdrop-then-taildrop-12", mixed + small_adds(14, 30) + [["delto", 5]], ["delfrom", 9], [["reopen", "destroy"]], all_t=False)
+    case("taildrop-then-headdrop", mixed[:9] + [["delfrom", 7]], ["delto", 2], [["add", 20, 2, {"n": 13, "s": 20}], ["reopen", "destroy"]],
+         all_t=False)
+    case("taildrop-headdrop-taildrop", mixed[:10] + [["delfrom", 8], ["delto", 3]], ["delfrom", 2], [["add", 20, 2, {"n": 13, "s": 20}],
+                                                                                                  ["reopen", "abandon"]], all_t=False)
     # a stale <journal>.tmp left by a head drop killed at / before its rename: every later op is
     # indifferent to it, reopen ignores it, the next head drop removes it first (JR) - and is killed again
     # (1, 0) = killed after JC before JW: an EMPTY <journal>.tmp; (1, 23) = torn header write of the tmp file
